@@ -358,6 +358,17 @@ func runC08(t *testing.T, sc *Scenario) Result {
 	table := effectiveTable(p.Ports, func(s string) bool { return p.stub(s) != nil })
 	calls := stubHub.snapshot()
 	res.Nontriv = false
+	for _, a := range sc.Actors {
+		for i, o := range a.Ops {
+			if o.K == "sleep" && o.Ms >= 30000 {
+				res.fault("client-silent-past-the-30s-deadline", 1)
+			}
+			if o.K == "close" && i == 0 {
+				res.fault("client-closes-without-sending", 1)
+			}
+		}
+	}
+	res.fault("deadline-fired", obs.NetStats.DeadlineFires)
 	for ai := range sc.Actors {
 		a := &sc.Actors[ai]
 		e := lookupEntry(table, a.Kind, hostOf(a.Dst), portOf(a.Dst))
